@@ -21,7 +21,7 @@ def termName (term : Str) : String := (String.ofList (term.map Char.ofNat)).repl
 /-- the opaque codecs cannot be evaluated by the driver -/
 def noExt : Cs → Codec := fun _ => ⟨fun _ => none, fun _ => []⟩
 
-def isOpaque (cs : Cs) : Bool := match known cs with | .opaque => true | _ => false
+def isOpaque (cs : Cs) : Bool := match known cs with | .ext => true | _ => false
 
 def hasSub (pat : Str) : Str → Bool
   | [] => pat.isEmpty
@@ -248,7 +248,7 @@ def handle (line : String) : String :=
           else match known cs with
             | .page p => if (p.encode s).isSome then "MODEL-DIFF model encodes, implementation rejects" else s!"ok str-rejected-{cs.ctorName}"
             | .utf8 => "MODEL-DIFF UTF-8 rejected a string"
-            | .opaque => s!"ok str-rejected-{cs.ctorName}"
+            | .ext => s!"ok str-rejected-{cs.ctorName}"
         else
         match unhex enc, toStr dec with
         | some bytes, some d =>
@@ -262,7 +262,7 @@ def handle (line : String) : String :=
               else s!"ok str-{cs.ctorName}-{if s.isEmpty then "empty" else if s.all (· < 128) then "ascii" else "nonascii"}"
             | .utf8 =>
               if utf8Enc s ≠ bytes ∨ utf8Dec bytes ≠ d then "MODEL-DIFF utf-8" else s!"ok str-{cs.ctorName}-{if s.all (· < 128) then "ascii" else "nonascii"}"
-            | .opaque => s!"ok str-{cs.ctorName}-{if s.all (· < 128) then "ascii" else "nonascii"}"
+            | .ext => s!"ok str-{cs.ctorName}-{if s.all (· < 128) then "ascii" else "nonascii"}"
         | _, _ => if dec == "err" ∨ dec == "panic" then s!"PROP-FAIL class=decode-of-encoded-fails set={termName term} text {hexStr s}" else "BAD-LINE"
     | _, _, _ => "BAD-LINE"
   | ["bytes", term, b, d] =>
